@@ -64,3 +64,22 @@ TEXT = dict(
     text='Theorems: C08_readN_refines (any clean schedule, any buffer size, any prior buffer state: ReadN sequence = exact-n reader, errors up to the EOF class, exactly equal unless the stream ends inside a request), C08_readN_sound (any reader incl. failing ones: never panics, success only with exactly the next n bytes), C08_request_bound (every decoder request ≤ reservedbuf = 765; a short read ends the run), C08_chunk_indep_partial / C08_chunk_indep (decode outcome — events, headers, CRCs, error — equal for any two clean schedules and buffer sizes; up to EOF class in general, exactly when not truncated inside a request), C08_full_false (the strict statement fails: KF-C08-1 witness decided in the kernel), C08_reader_error (a reader error before the requested bytes are delivered is returned by ReadN), C08_reader_error_loop / C08_reader_error_decode (over any reader and buffer size, a reader failure handed to the decoder is the error the Next/Decode loop — and a single Decode — ends with; full strength since the fix 7644d6f of KF-C08-2), C08_checkIntegrity_indep, C08_chunk_indep_reused_buffer, C08_raw_chunk_indep (clients of io.ReadFull: exact incl. error class). EVERY ENTRY POINT: C08_request_bound_ops / C08_chunk_indep_ops / C08_chunk_indep_ops_contiguous (for every list of calls Decode / DecodeWithContext live, cancelled before, cancelled after k records / PeekFileHeader / PeekFileId / Discard / Next / final CheckIntegrity on one decoder: any two clean fragmentations, buffer sizes and prior buffer states give the same per-call results and listener events - up to the EOF class, exactly when the stream does not end inside a request; in particular those of the contiguous reader) and C08_reader_error_ops (a reader failure handed to the decoder during any call ends the reading and is the decoder\'s error). Value level: the dfrag answer carries m= - the digest of every message\'s VALUES as handed to the listener, which the model rebuilds from the field bytes of its message events with the decoder-API model\'s own functions (apiOf, standard factory, expansion off). Tie: families readbuffer (hook-driven, enumerated split points around the reserved-prefix boundary, random schedules × sizes × request sequences, buffer re-use) dfrag (real Decoder / CheckIntegrity over 1-byte, random, DataErrReader-style, failing-at-every-offset readers vs model and vs contiguous decode at value level) dhfrag (call histories over the same readers) and rawfrag (the real RawDecoder - io.ReadFull straight on the reader - on streams cut at every offset, each cut delivered in one Read together with io.EOF, with its last byte alone together with io.EOF, one byte per Read, in random partitions; reference: bytes.NewReader).',
     note='Proved about the model; tied by differential testing. Full strength (identical error class for truncated streams) is false on the pinned tree: io.EOF vs io.ErrUnexpectedEOF depends on fragmentation (F12, pinned by a test → open finding KF-C08-1). KF-C08-2 (Next() swallowed a reader failure) was found by this check and fixed in /repo (7644d6f).',
 )
+
+# --- tie by translation (translators/go2lean, notes/go2lean.md + notes/go2lean-add-r.md; agreement theorems in lean/FitProps/C08Go2Lean.lean).
+# Kept as a separate block so that it never collides with edits of the dictionary above.
+PROP['regen'] = PROP['regen'] + ['go2lean:readbuffer', 'go2lean:readbuffercap']
+PROP['go2lean_diff'] = PROP.get('go2lean_diff', []) + ['ReadBuffer']      # lean/Go2LeanDiff/<Topic>.lean: search for a differing argument when an agreement theorem breaks
+PROP['theorems'] = PROP['theorems'] + [
+    'Fit.C08.C08_go2lean_consts',
+    'Fit.C08.C08_go2lean_remaining',
+    'Fit.C08.C08_go2lean_cur',
+    'Fit.C08.C08_go2lean_copy',
+    'Fit.C08.C08_go2lean_fill',
+    'Fit.C08.C08_go2lean_refill',
+    'Fit.C08.C08_go2lean_window',
+    'Fit.C08.C08_go2lean_clamp',
+    'Fit.C08.C08_go2lean_reset',
+    'Fit.C08.C08_go2lean_oldsize',
+    'Fit.C08.C08_go2lean_readN_recomposed']
+PROP['trusted_base'] = PROP['trusted_base'] + [
+    "translators/go2lean (Go→Lean for a small subset of Go, notes/go2lean.md, notes/go2lean-add-r.md) re-translates the index arithmetic of decoder/readbuffer.go from the current source on every run: the statement runs of readBuffer.ReadN around the io.ReadAtLeast call (remaining, the cursor of the refill, b.cur / b.last after it, b.cur += n), its two conditions, the bounds of all four slice expressions of b.buf, the minimum handed to io.ReadAtLeast, and of readBuffer.Reset the clamp of size, the grow condition, the allocated and the re-sliced length (items selected structurally: function + assigned variable, or call / sliced operand + occurrence number); the agreement theorems *_go2lean_* state that each translated piece equals the corresponding piece of Fit.ReadBuffer.RB.readN / RB.reset for all arguments; and C08_go2lean_readN_recomposed states that ReadN re-assembled from the translated pieces in the order of the Go text (Fit.Go2Lean.readNGo, hand-written glue of 25 lines in FitProps/Go2LeanReadBuffer.lean) is RB.readN for every state with cur ≤ last ≤ len ≤ cap; NOT translated (outside the subset; taken from the model in readNGo, tied by the correspondence families only): the calls copy, io.ReadAtLeast, make, cap themselves, Go's slice-bounds rule and the control flow between the pieces; trusted: the translator's rendering of the subset (go/types computes constants and types) and FitModel/GoPrelude.lean"]
